@@ -103,6 +103,9 @@ def gen_vars(r, layout=None, int_frac=0.0, positive=False):
     elif layout == "D":
         decl("matrix", "A", rows=2, cols=2, symmetric=r.random() < 0.4)
         decl("scalar", "x")
+    elif layout == "F":
+        decl("vector", "v", n=r.choice([11, 12, 13]))  # more than ten elements
+        decl("scalar", "x")
     else:
         decl("vector", "v", n=r.choice([3, 4]))
         decl("scalar", "x")
@@ -662,16 +665,32 @@ def gen_handle(r, sp, hid, enames):
             need |= S.mentioned(sp, sp["exprs"][e])
         return ["compile", 0, hid, "jac", {"es": es, "order": _gen_order(r, sp, sorted(need, key=S.natural_key))}]
     e = r.choice(enames)
-    bare = [b for b in ("b0", "b1", "b2") if b in sp["exprs"]]
+    bare = [b for b in ("b0", "b1", "b2", "b3") if b in sp["exprs"]]
     if bare and r.random() < 0.15:
         e = r.choice(bare)
     if kind == "hess" and sp.get("hess_pref") and r.random() < 0.5:
         e = r.choice([h for h in sp["hess_pref"] if h in sp["exprs"]] or [e])
     need = sorted(S.mentioned(sp, sp["exprs"][e]), key=S.natural_key)
     a = {"e": e, "order": _gen_order(r, sp, need)}
+    if len(need) >= 2 and r.random() < 0.04:
+        # a request that cannot be compiled: a needed variable is missing from the order
+        a["order"] = [n for n in a["order"] if n != need[-1]]
     if kind == "symgrad":
         a["wrt"] = r.choice(need) if need else S.all_element_names(sp)[0]
     return ["compile", 0, hid, kind, a]
+
+
+def gen_param_ops_reset(r, sp):
+    """vector set A, element set, vector set A again (the same array)."""
+    vs = [d for d in sp["params"] if d["kind"] == "vector"]
+    if not vs:
+        return [gen_param_op(r, sp)]
+    d = r.choice(vs)
+    A = [r.choice(PGRID) for _ in range(d["n"])] if r.random() < 0.6 else list(d["values"])
+    i = r.randrange(d["n"])
+    z = r.choice([v for v in PGRID if v != A[i]])
+    ops = [] if A == list(d["values"]) and r.random() < 0.5 else [["vparam_set", 0, d["name"], A]]
+    return ops + [["pel_set", 0, d["name"], i, z], ["vparam_set", 0, d["name"], A]]
 
 
 def gen_param_op(r, sp):
@@ -719,7 +738,9 @@ def gen_c12(r):
     n = r.randint(4, 20)
     for _ in range(n):
         k = r.random()
-        if k < 0.30:
+        if k < 0.05:
+            ops.extend(gen_param_ops_reset(r, sp))
+        elif k < 0.30:
             ops.append(gen_param_op(r, sp))
         elif k < 0.55:
             a = {"method": r.choice(C12_METHODS)}
@@ -780,6 +801,10 @@ def _add_bare_leaves(r, sp):
     # a plain product of two variables: its gradient entries are bare Variables
     a, b = (r.sample(names, 2) + [n])[:2]
     sp["exprs"]["b2"] = ["*", ref_of(sp, a), ref_of(sp, b)]
+    mats = [d for d in sp["vars"] if d["kind"] == "matrix"]
+    if mats:
+        # evaluates, but has no compiler case: every compile of it must raise, and leave nothing behind
+        sp["exprs"]["b3"] = ["+", ["*", ["num", 2.0], ref_of(sp, n)], ["msum", mats[0]["name"]]]
     sp["expr_order"] = sorted(sp["exprs"])
 
 
@@ -1197,6 +1222,16 @@ def gen_peer(r, method_entered, sh, lp=False, entry=0, classes=None, xkinds=None
 def make_infeasible(r, sp):
     """Append a contradictory constraint pair k0/k1 (infeasible by construction)."""
     core = [n for n in S.all_element_names(sp) if n != "w"]
+    if r.random() < 0.25:
+        # a constraint without any effective variable term whose constant part is violated
+        a = ref_of(sp, r.choice(core))
+        b = ref_of(sp, r.choice(core))
+        form = r.choice(["cancel", "zeros"])
+        lhs = ["-", a, a] if form == "cancel" else ["+", ["*", ["num", 0.0], a], ["*", ["num", 0.0], b]]
+        sp["cons"]["k0"] = {"k": "s", "lhs": lhs, "sense": ">=", "rhs": ["num", r.choice([1.0, 2.0])]}
+        sp["cons"]["k1"] = gen_lin_con(r, sp, core)
+        sp["con_order"] = sorted(sp["cons"])
+        return
     terms = lin_terms(r, core, 1, 2)
     a = r.choice([0.0, 1.0, 2.0])
     gap = r.choice([0.5, 1.0, 3.0])
@@ -1308,6 +1343,8 @@ def gen_c06(r, tier="quick", c07=False):
             if ent == "SLSQP" and r.random() < 0.6:
                 peers.append(gen_peer(r, "trust-constr", sh, entry=1))
             a["peers"] = peers
+        if si > 0 and r.random() < 0.2 and "x0" not in a:
+            a["x0_prev"] = True
         if r.random() < 0.06:
             b = {"method": a["method"], "fault": {"site": "compile", "k": r.choice([1, 2, 3, 4, 5, 7]), "exc": r.choice(["MemoryError", "RecursionError", "ValueError"])}}
             ops.append(["solve", 0, b])  # the first attempt dies while building its caches; then the retry
@@ -1475,7 +1512,9 @@ def redeclared_spec(r, sp, int_frac=0.5):
 def gen_redeclare(r, int_frac=0.0, strict_frac=0.0):
     """Constraint-free problem: solve, re-declare the variables under the same names, install an
     objective built from the new objects, solve again (the variable list must be the new objects)."""
-    sp, meta = gen_pool(r, kinds=("lin", "quad", "nl", "lin"), int_frac=int_frac, nobj=5, ncon=1)
+    deep = 405 if r.random() < 0.3 else 0
+    kinds = ("lin", "lin", "lin", "quad") if deep else ("lin", "quad", "nl", "lin")
+    sp, meta = gen_pool(r, kinds=kinds, int_frac=int_frac, nobj=5, ncon=1, deep=deep)
     knobs = gen_knobs(r, 0.7)
     onames = sorted(sp["exprs"])
     ops = [["new_model", 0, sp], [r.choice(["minimize", "maximize"]), 0, r.choice(onames)]]
@@ -1489,15 +1528,33 @@ def gen_redeclare(r, int_frac=0.0, strict_frac=0.0):
     for _ in range(r.randint(1, 3)):
         ops.append(solve() if r.random() < 0.7 else [r.choice(["read_variables", "read_bounds", "repr"]), 0])
     cur = sp
-    for _ in range(r.choice([1, 1, 2])):
-        cur = redeclared_spec(r, cur, max(int_frac, 0.3))
+    for _ in range(r.choice([1, 1, 2]) if not deep else r.randint(3, 7)):
+        cur = redeclared_spec(r, cur, max(int_frac, 0.3) if not deep else int_frac)
         ops.append(["redeclare", 0, cur, r.choice(["minimize", "maximize"]), r.choice(onames)])
         for _ in range(r.randint(1, 3)):
             ops.append(solve() if r.random() < 0.75 else [r.choice(["read_variables", "read_bounds"]), 0])
     return {"knobs": knobs, "ops": ops}
 
 
+def gen_c18_many(r):
+    """More than ten non-continuous variables in one problem (names must all be listed)."""
+    from .world import DEFAULT_KNOBS
+
+    sp, meta = gen_pool(r, kinds=("lin", "quad"), layout="F", int_frac=1.0, nobj=3, ncon=3)
+    ops = [["new_model", 0, sp]]
+    sp["exprs"]["oall"] = ["+", ["vsum", ["vec", "v"]], ["var", "x"]] if r.random() < 0.5 else ["+", ["dot", ["vec", "v"], ["vec", "v"]], ["var", "x"]]
+    sp["expr_order"] = sorted(sp["exprs"])
+    ops.append([r.choice(["minimize", "maximize"]), 0, "oall"])
+    for c in r.sample(sorted(sp["cons"]), r.choice([0, 1, 2])):
+        ops.append(["subject_to", 0, c])
+    for _ in range(r.randint(2, 4)):
+        ops.append(["solve", 0, {"method": r.choice(C13_METHODS), "strict": r.random() < 0.6}])
+    return {"knobs": dict(DEFAULT_KNOBS), "ops": ops}
+
+
 def gen_c18(r, tier="quick"):
+    if r.random() < 0.06:
+        return gen_c18_many(r)
     if r.random() < 0.12:
         return gen_redeclare(r, int_frac=0.4, strict_frac=0.45)
     return gen_c13(r, int_frac=r.choice([0.3, 0.6, 1.0]), strict_frac=0.45, maxlen=16)
